@@ -199,6 +199,27 @@ class P(core.Prop):
     thorough_n = 20000
     shard = 400
     design_ref = '5/C17'
+    rule = ('a case = one way of asking for an onion endpoint (TCPHiddenServiceEndpoint(...) with ephemeral / '
+            'hidden_service_dir / auth / stealth_auth / private_key / version / single_hop; one of the four '
+            'Tor.create_*_endpoint methods; an onion: string through serverFromString with hiddenServiceDir / privateKey / '
+            'privateKeyFile / version / singleHop / controlPort), the configuration available at once or later (or '
+            'failing / not a TorConfig), the local bind succeeding or not, then listen() on a recording reactor and a '
+            'REAL TorControlProtocol + TorConfig, and a script: reply or rejection of ADD_ONION/SETCONF, HS_DESC events '
+            'of the service and of another one over 1..4 directories, loss of the control connection, stopListening. '
+            'quick: every configuration (972 + 54 + 2100) x 2 of the 12 fault scripts + random histories; '
+            'thorough: every configuration x every fault script + random histories. '
+            'non-trivial = every case (each is a distinct configuration x script); distinct = distinct case')
+    trusted = ['harness/onion_world.py (scripted Tor), the recording reactor / listening port doubles of harness/drive_C17.py; '
+               'txtorcon.controller.launch / connect and tempfile.mkdtemp are replaced by recorders for the duration of a case '
+               '(in the harness process only); a temporary directory on disk; for authenticated services Tor\'s reply carries '
+               'a fixed RSA1024 key whose permanent id is the address used in the events',
+               'the operating system\'s bind is not modelled: loopback-only = the interface argument seen by the reactor double']
+    assumptions = ['one listen() per endpoint, on a directory / key not yet configured',
+                   'the HS_DESC histories stay outside C15\'s finding classes F1/F2 (events of the service after the reply, no '
+                   'foreign UPLOADED for an attempted directory): those are C15\'s business',
+                   'where Tor has no such service (authenticated v3 / ED25519) the scripted Tor rejects the command',
+                   'version 2 / unspecified together with an ED25519-V3 key is not generated (the documentation does not say '
+                   'whether it is valid)']
 
     # ---------------------------------------------------------------- implementation
     def run_impl(self, case):
@@ -332,6 +353,8 @@ class P(core.Prop):
                         kw['version'] = a['version']
                     if a.get('single_hop') is not None:
                         kw['single_hop'] = a['single_hop']
+                    if a.get('local_port'):
+                        kw['local_port'] = 4444      # documented as the local listen port; listen() picks its own
                     ep = endpoints.TCPHiddenServiceEndpoint(reactor, cfg_d if cfg_d is not None else cfg,
                                                             case['pub'], **kw)
                 elif case['route'] == 'tor':
@@ -656,8 +679,11 @@ class P(core.Prop):
             scripts = self.scripts(tor_rejects(probe)) if q is not None else [('invalid', False, True, [])]
             if sample is not None and len(scripts) > sample:
                 scripts = rng.sample(scripts, sample)
-            for sc in scripts:
-                c = self._case(route, dict(args), sc)
+            for i, sc in enumerate(scripts):
+                aa = dict(args)
+                if route in ('ctor', 'string') and (len(out) + i) % 3 == 0:
+                    aa['local_port'] = True           # must make no difference (not part of the Coq configuration)
+                c = self._case(route, aa, sc)
                 if c is None:
                     continue
                 k = core.case_key(c)
@@ -715,7 +741,10 @@ class P(core.Prop):
                                                      if pending else []) + ops)
             if pending and sc[3][0][0] != 'cfg_ok':
                 sc = (sc[0], sc[1], sc[2], sc[3][:1])
-            c = self._case(route, dict(args), sc, pub=rng.choice([80, 443, 1, 8080, 65535]))
+            aa = dict(args)
+            if route in ('ctor', 'string') and rng.random() < 0.3:
+                aa['local_port'] = True
+            c = self._case(route, aa, sc, pub=rng.choice([80, 443, 1, 8080, 65535]))
             if c is None:
                 continue
             if route == 'string' and c['ops'] and c['ops'][0][0] != 'cfg_ok':
